@@ -27,6 +27,7 @@ def main():
     sensors = [int(x) for x in sys.argv[4].split(",") if x]
     seed, container, order_seed = int(sys.argv[5]), sys.argv[6], int(sys.argv[7])
     cse = (sys.argv[8] == "1") if len(sys.argv) > 8 else True
+    warmup = (sys.argv[9] == "1") if len(sys.argv) > 9 else False
     from replay import scenarios, shim
     from replay.native import REPO, repo_import
 
@@ -49,6 +50,13 @@ def main():
     os.chdir(REPO)
     try:
         with contextlib.redirect_stdout(buf):
+            if warmup:
+                # something else was generated earlier in this process: a definition with the OPPOSITE calibration / control presence
+                other = scenarios.Scenario(2, 0 if c else 1, 0 if k else 1, [1], seed=seed + 5)
+                om = other.ui_model(ui, "set")
+                og = cpp._generate_ekf_function_bodies("x/generated/formak/model.h", "generated", om, dict(other.process_noise), {a: dict(b) for a, b in other.sensor_models.items()}, {a: dict(b) for a, b in other.sensor_noises.items()}, dict(other.calibration_map), cpp.Config())
+                "\n".join(cpp.header_from_ast(generator=og))
+                "\n".join(cpp.source_from_ast(generator=og))
             model = ui.Model(dt=sc.dt, state=decl(sc.state), control=decl(sc.control), calibration=decl(sc.calibration), state_model=permuted(sc.state_model, rng))
             pn = permuted(sc.process_noise, rng)
             sm = {key: permuted(v, rng) for key, v in permuted(sc.sensor_models, rng).items()}
